@@ -144,7 +144,8 @@ taskreport {report_id} "{report_id}" {{
         with os.fdopen(temp_fd, "w") as f:
             temp_fd = -1  # owned by the file object from here on
             # Include original file
-            f.write(f"# Original file: {tjp_path}\n")
+            # (ascii(): the name is not project text - a line break in it must not end the comment)
+            f.write(f"# Original file: {ascii(str(tjp_path))}\n")
             f.write("# Auto-report added by plan CLI\n\n")
             f.write(original_content)
             f.write("\n\n")
@@ -297,7 +298,8 @@ def report(ctx: click.Context, tjp_file: Optional[str], output_csv: bool, output
                 if verbose:
                     logger.debug("Reading .tjp content from stdin")
 
-                stdin_content = sys.stdin.read()
+                # (sys.stdin is None when the descriptor is closed: no input then)
+                stdin_content = sys.stdin.read() if sys.stdin is not None else ""
 
                 if not stdin_content.strip():
                     raise FileNotFoundError("No input provided on stdin")
